@@ -994,6 +994,11 @@ static int write_char(void *context, cif_value_tp *char_value, int allow_text) {
                          */
                         int prefix = (analysis.contains_text_delim || (fold && (text[0] == UCHAR_SEMI)));
 
+                        /* every line of a prefixed field is longer by the prefix; fold if the longest no longer fits */
+                        if (prefix && ((analysis.length_max + PREFIX_LENGTH) > LINE_LENGTH(context))) {
+                            fold = CIF_TRUE;
+                        }
+
                         /* XXX: should really flag more specifically for whether prefixing is enabled */
                         if (!allow_text || (prefix && IS_CIF1(context))) {
                             result = CIF_DISALLOWED_VALUE;
